@@ -429,6 +429,7 @@ def run_config(contract, cfg, facets="VCSTRN", prime=None, tier="quick", max_pat
             c.entry = c.snapshot()
             start = len(g.trace)
             opsnap = _snapshot_operands(c, args, kwargs)
+            stsnap = _snapshot_state(w, opsnap)
             w.target = contract.target
             w.target_entered = False
             outcome = None
@@ -551,6 +552,13 @@ def run_config(contract, cfg, facets="VCSTRN", prime=None, tier="quick", max_pat
                     if P.solver.check() == z3.sat:
                         res.setdefault("path_models", {})[psig] = {
                             k: v for k, v in model_dict(P.solver.model()).items() if k.startswith(("s_", "k_"))}
+            # frame: nothing outside the declared frame of the function is written (module globals, class
+            # attributes, new attributes on operand objects).  The per-call contracts characterise an operand by
+            # (value, wire expression) alone; state hidden elsewhere would make them unsound for later calls.
+            hidden = _hidden_writes(w, stsnap, BASE_ASSIGNS + tuple(getattr(contract, "assigns", ())))
+            obs.append(("frame.assigns", [], z3.BoolVal(not hidden), None))
+            if hidden:
+                res.setdefault("exc_by_path", {})[psig + "/assigns"] = "written outside the declared frame: " + ", ".join(hidden)[:300]
             # discharge.  Clauses of one postcondition are proved in the order they are written; a clause
             # that has been proved may be used as a lemma by the later ones of the same path (S/E clauses
             # among themselves, since they share the hypothesis "all triples hold adversarially").
@@ -574,6 +582,8 @@ def run_config(contract, cfg, facets="VCSTRN", prime=None, tier="quick", max_pat
                     ob["detail"] = res["exc_by_path"][psig]
                 if nm == "V.result_shape" and psig + "/post" in res.get("exc_by_path", {}):
                     ob["detail"] = res["exc_by_path"][psig + "/post"]
+                if nm == "frame.assigns" and psig + "/assigns" in res.get("exc_by_path", {}):
+                    ob["detail"] = res["exc_by_path"][psig + "/assigns"]
                 if nm == "F.operands_not_mutated" and psig + "/frame" in res.get("exc_by_path", {}):
                     ob["detail"] = res["exc_by_path"][psig + "/frame"]
                 if model is not None:
@@ -681,6 +691,15 @@ def _discharge_standalone(hyps, goal, timeout_ms):
     return "unknown", time.time() - t0, None, "z3+cvc5"
 
 
+def _attr(x, name):
+    """Attribute of an object of the code under verification; objects with a custom __getattr__ (BranchingValues)
+    may answer a missing name with any exception."""
+    try:
+        return object.__getattribute__(x, name)
+    except Exception:
+        return None
+
+
 def _secret_objects(x, out, depth=0):
     if depth > 4:
         return
@@ -690,13 +709,17 @@ def _secret_objects(x, out, depth=0):
     elif isinstance(x, dict):
         for y in x.values():
             _secret_objects(y, out, depth + 1)
-    elif hasattr(x, "arr") and isinstance(getattr(x, "arr", None), list):
-        _secret_objects(x.arr, out, depth + 1)
-    elif hasattr(x, "lc") and not isinstance(x, (int, str)):
+    elif isinstance(x, (int, str, float, bytes, type(None))):
+        return
+    elif isinstance(_attr(x, "arr"), list):
+        _secret_objects(_attr(x, "arr"), out, depth + 1)
+    elif _attr(x, "lc") is not None:
         out.append(x)
-        inner = getattr(x, "lc", None)
-        if hasattr(inner, "lc"):
+        inner = _attr(x, "lc")
+        if _attr(inner, "lc") is not None:
             out.append(inner)
+    elif isinstance(_attr(x, "vals"), dict):          # BranchingValues
+        _secret_objects(_attr(x, "vals"), out, depth + 1)
 
 
 def _snapshot_operands(c, args, kwargs):
@@ -716,6 +739,92 @@ def _snapshot_operands(c, args, kwargs):
         m = dict(lc.m) if isinstance(lc, gh.GLC) else None
         snap.append((o, getattr(o, "value", None), lc, m))
     return snap
+
+
+# counters every constraint-emitting function advances
+BASE_ASSIGNS = ("pysnark.runtime:num_constraints",)
+
+
+def _shallow(v):
+    if isinstance(v, dict):
+        return ("dict", tuple((id(k), id(x)) for k, x in dict.items(v)))
+    if isinstance(v, list):
+        return ("list", tuple(id(x) for x in list.__iter__(v)))
+    if isinstance(v, (set, frozenset)):
+        return ("set", frozenset(id(x) for x in v))
+    return None
+
+
+def _snapshot_state(w, opsnap):
+    """Module globals and class attributes of the repository modules loaded in this world, and the attribute
+    sets of the operand objects, before the call."""
+    import types as _t
+    mods = {}
+    for name, mod in list(w.modules.items()):
+        if not isinstance(mod, _t.ModuleType) or not name.startswith("pysnark") or getattr(mod, "__ghost__", False) \
+                or not getattr(mod, "__file__", None):
+            continue
+        d = {}
+        for k, v in list(vars(mod).items()):
+            if k.startswith("__"):
+                continue
+            d[k] = (v, _shallow(v))
+            if isinstance(v, type) and getattr(v, "__module__", None) == name:
+                for a, x in list(vars(v).items()):
+                    if not a.startswith("__"):
+                        d["%s.%s" % (k, a)] = (x, _shallow(x))
+        mods[name] = d
+    attrs = [(o, frozenset(vars(o))) for (o, _v, _l, _m) in opsnap if hasattr(o, "__dict__")]
+    return mods, attrs
+
+
+def _hidden_writes(w, snap, assigns):
+    import fnmatch
+    mods, attrs = snap
+    out = []
+
+    def allowed(tag):
+        return any(fnmatch.fnmatch(tag, pat) for pat in assigns)
+    for name, before in mods.items():
+        mod = w.modules.get(name)
+        if mod is None:
+            continue
+        now = {}
+        for k, v in list(vars(mod).items()):
+            if k.startswith("__"):
+                continue
+            now[k] = v
+            if isinstance(v, type) and getattr(v, "__module__", None) == name:
+                for a, x in list(vars(v).items()):
+                    if not a.startswith("__"):
+                        now["%s.%s" % (k, a)] = x
+        for k, v in now.items():
+            tag = "%s:%s" % (name, k)
+            if k not in before:
+                import types as _t
+                if isinstance(v, _t.ModuleType):
+                    continue                      # a (lazy) import binds a module name
+                if not allowed(tag):
+                    out.append(tag + " (new)")
+            else:
+                v0, sh0 = before[k]
+                if v is not v0:
+                    same = type(v) is type(v0) and isinstance(v, (int, str, bool, type(None))) and not isinstance(v, sym.SymInt) \
+                        and not isinstance(v0, sym.SymInt) and v == v0
+                    if not same and not allowed(tag):
+                        out.append(tag + " (re-bound)")
+                elif sh0 is not None and _shallow(v) != sh0 and not allowed(tag):
+                    out.append(tag + " (container changed)")
+        for k in before:
+            if k not in now and not allowed("%s:%s" % (name, k)):
+                out.append("%s:%s (deleted)" % (name, k))
+    for o, keys in attrs:
+        extra = frozenset(vars(o)) - keys
+        for a in sorted(extra):
+            tag = "%s.%s" % (type(o).__name__, a)
+            if not allowed(tag):
+                out.append(tag + " (new attribute on an operand)")
+    return out
 
 
 def _mutated_operands(c, snap):
